@@ -79,9 +79,9 @@ CHECKS["C17"] = dict(
     level="exploration",
     technique="virtual-time executions (testing/synctest) of the real RunSequencer with an online reference model of pool occupancy and priority, settle-point outcome accounting per submitter, lock-history monitor after stops",
     text="Arrival scripts (15-90 submissions: high/low priority, duplicates, cancelled contexts, bursts) over 3-7 sequencing periods run inside synctest bubbles against the real RunSequencer (ticker, read-only switch and request contexts all on virtual time). Each admission decision is compared with a model of the pool at that instant (room => admitted; full: low => rate-limited; high with a pending low => admitted and exactly one pending low-priority entry receives the eviction outcome; high with none => rate-limited), occupancy never exceeds the pool size, rounds add at most pool-size leaves, every submitter has exactly one outcome by the settle point after its pool's tick (bounded progress in virtual time), evicted entries never appear in the tree, and after a stop (fatal lock error, cancellation, read-only date) every later submission fails with the right error kind and the lock history never grows. 400 (thorough 15000) scripts.",
-    note="'Promptly' is restated as: outcome present at the settle point 4 ms of virtual time before the next tick (rounds take no virtual time on the in-memory stores). An evicted victim whose request context was already cancelled is unobservable and accepted as the victim. HTTP status mapping (503/410) is covered by the C09 workload only for 4xx/200. Trusted: synctest virtual time, harness stores.",
+    note="'Promptly' is restated as: outcome present at the settle point 4 ms of virtual time before the next tick (rounds take no virtual time on the in-memory stores). An evicted victim whose request context was already cancelled is unobservable and accepted as the victim. The HTTP status mapping (503 + Retry-After for rate-limited and evicted submissions, 410 after the read-only date) is checked by a small real-time scenario on the real handler (part http); if a sequencer tick overtakes the scenario on a loaded machine the scenario is skipped, not judged. Trusted: synctest virtual time, harness stores.",
     design_ref="DESIGN.md section 3, C17",
-    parts=[P("scripts", "^TestC17Scripts$", shards=(8, 16))],
+    parts=[P("scripts", "^TestC17Scripts$", shards=(8, 16)), P("http", "^TestC17HTTP$", shards=(2, 6))],
     floor=100,
 )
 
